@@ -173,7 +173,42 @@ def check_prop(res, rng, ast, names, payload=None):
     fd = first_diff(q1, q3)
     if fd:
         return f"query {fd[0]} answers differently on an object packed after it answered queries: {json.dumps(fd[1])[:300]} -> {json.dumps(fd[2])[:300]}"
+    # propositions the library itself hands out (results of assume / reduce / negate carry values and bounds in the
+    # integer types the library computed them in) and propositions given numpy integers must round-trip as well
+    derived = [("negate", lambda: build(ast).negate()), ("reduce", lambda: build(ast).reduce()),
+               ("assume-first-env", lambda: build(ast).assume({e[0]: e[2] for e in envs[0][: max(1, len(envs[0]) // 2)]})),
+               ("assume-range", lambda: build(ast).assume({e[0]: (e[2], e[3]) for e in envs[-1]}))]
+    for how, mk in derived:
+        try:
+            obj = mk()
+        except Exception:
+            continue
+        if is_var(obj):
+            continue
+        res.evaluations += 1
+        try:
+            back = pg.from_b64(obj.to_b64())
+        except Exception as e:
+            return f"the result of {how} (a proposition handed out by the library) does not round-trip: {type(e).__name__}: {str(e)[:200]}"
+        if type(back) is not type(obj) or sdump(back) != sdump(obj):
+            return f"the result of {how} changes in the round trip: {json.dumps(sdump(obj))[:300]} -> {json.dumps(sdump(back))[:300]}"
+        if jsonable_eval(obj, envs[0]) != jsonable_eval(back, envs[0]):
+            return f"the result of {how} evaluates differently after the round trip"
+    try:
+        npm = pg.AtLeast(np.int64(int(m.value)), list(m.propositions), variable=puan.variable(m.id + "_np", bounds=np.array([0, 1])), sign=m.sign)
+        back = pg.from_b64(npm.to_b64())
+        if sdump(back) != sdump(npm):
+            return f"a proposition given numpy integers changes in the round trip: {json.dumps(sdump(npm))[:300]} -> {json.dumps(sdump(back))[:300]}"
+    except Exception as e:
+        return f"a proposition given numpy integers (value numpy.int64, bounds numpy array) does not round-trip: {type(e).__name__}: {str(e)[:200]}"
     return None
+
+def jsonable_eval(obj, env):
+    try:
+        r = obj.evaluate({e[0]: e[2] for e in env})
+        return [int(r.lower), int(r.upper)]
+    except Exception as e:
+        return ["raise", type(e).__name__]
 
 # ----------------------------------------------------------------------------- polyhedra
 DT = {"int64": "DInt64", "int32": "DInt32", "int16": "DInt16", "int8": "DInt8", "float64": "DFloat64"}
